@@ -197,6 +197,29 @@ class ReqNil:
     opt: Optional[int] = field(default=None, metadata={"type": "Element"})
 
 
+@dataclass
+class Measure:
+    """a class that is itself NILLABLE (what the generator writes for a nillable element of a complex type with simple
+    content): without a value it is written with xsi:nil and its attributes, and read back as an instance, not None"""
+
+    class Meta:
+        nillable = True
+
+    value: Optional[int] = field(default=None, metadata={"type": "Text"})
+    unit: Optional[str] = field(default=None, metadata={"type": "Attribute", "xv_values": ["cm", "in", "t"]})
+    why: Optional[str] = field(default=None, metadata={"type": "Attribute", "namespace": NS_B, "xv_values": ["n/a", "t"]})
+
+
+@dataclass
+class NilClass:
+    class Meta:
+        namespace = NS_A
+
+    height: Optional[Measure] = field(default=None, metadata={"type": "Element"})
+    sides: list[Measure] = field(default_factory=list, metadata={"type": "Element", "name": "side"})
+    tail: Optional[int] = field(default=None, metadata={"type": "Element"})
+
+
 @dataclass(kw_only=True)
 class SameName:
     """sibling fields that share ONE element name and are told apart by position (the parser remembers which of
@@ -254,8 +277,8 @@ class Order:
     any_attr: Optional[object] = field(default=None, metadata={"type": "Element", "name": "anyType"})
 
 
-ROOTS = [Leaf, Item, Holder, QNames, Prims, Seq, Compound, ReqNil, SameName, UnionEl, UnionModels, Wild, Mixed, Order]
-ALL = [Leaf, Item, Base, Derived, Holder, QNames, Prims, Seq, Compound, ReqNil, SameName, Amount, Label, UnionEl, UnionModels, Wild, Mixed, Order]
+ROOTS = [Leaf, Item, Holder, QNames, Prims, Seq, Compound, ReqNil, NilClass, SameName, UnionEl, UnionModels, Wild, Mixed, Order]
+ALL = [Leaf, Item, Base, Derived, Holder, QNames, Prims, Seq, Compound, ReqNil, Measure, NilClass, SameName, Amount, Label, UnionEl, UnionModels, Wild, Mixed, Order]
 
 HOSTILE_MAPS: list[dict | None] = [
     None,
